@@ -165,6 +165,15 @@ def main():
         rnd.shuffle(cases)
         cases = cases[:10]
     cases += sz_cases(rnd, 120 if quick else 4000)
+    # one atom carrying two descriptors of DIFFERENT bond order, each with its own end group: the bond to an end group has the order of the
+    # edge that was drawn, not of any other termination edge of that atom (several seeds each: which edge is drawn is random)
+    for text in ["{[] [<]CCC(=[$|0|])[>]; [$]=O, [<][H], [>]N []}|schulz_zimm(400, 300)|",
+                 "{[] [<]CCC(=[$|0|])[>]; [$]=O, [<]CC#N, [>]N []}|schulz_zimm(400, 300)|",
+                 "{[] [<]CC(=[$|0|])[>]; [<]F, [$]=S, [>]Cl []}|schulz_zimm(300, 200)|",
+                 "{[] [<]CCC(#[$1|0|])[>]; [$1]#N, [<]C, [>]O []}|schulz_zimm(350, 250)|"]:
+        c = genrun.parse_case(text, "mixedorder")
+        if c is not None:
+            cases += [c] * (6 if quick else 30)
     ops, keep = [], []
     for ci, case in enumerate(cases):
         with warnings.catch_warnings():
